@@ -1632,7 +1632,7 @@ Theorem lookup_consistent base objs : blank base ->
   (forall c0 vars v, o = OCont (filled c0 vars) -> c_subs c0 = [] -> c_names c0 = [] ->
      NoDup (map v_sub vars) -> NoDup (map v_name vars) -> In v vars ->
      obj_get o (KI (v_sub v)) = Ok v /\ obj_get o (KS (v_name v)) = Ok v /\
-     od_get (built objs base) (KS (obj_name o ++ 46 :: v_name v)) = Ok (LVar v)).
+     od_get (built objs base) (KS (obj_name o ++ 46 :: v_name v)) = Ok (LVar p v)).
 Proof.
   intros Hb Hi Hn Hd p o Hp. destruct (built_tables base Hb objs Hi Hn) as (T1 & T2 & T3 & T4).
   destruct (T2 p o Hp) as (Z1 & S1).
